@@ -355,10 +355,18 @@ def install_dykstra_logger():
     _INSTALLED.add("dykstra")
 
     def mk(orig):
-        def dykstra(P, x0, max_iter=100, tol=1e-10):
+        import inspect
+        sig = inspect.signature(orig)
+
+        def dykstra(*a, **kw):
+            # transparent: arguments are passed on exactly as received (positionally / by keyword), so a caller/signature
+            # mismatch in the code under test is not repaired by the wrapper; what each parameter received is read by binding
             c = CTX
             if c is None or c.dykstra_hook is None:
-                return orig(P, x0, max_iter=max_iter, tol=tol)
+                return orig(*a, **kw)
+            ba = sig.bind(*a, **kw)
+            ba.apply_defaults()
+            P = ba.arguments.get("P")
             ncalls = [0]
 
             def wrap(p):
@@ -367,12 +375,16 @@ def install_dykstra_logger():
                     return p(w)
                 return q
             P2 = [wrap(p) for p in P]
-            out = orig(P2, x0, max_iter=max_iter, tol=tol)
+            if "P" in kw:
+                kw2 = dict(kw, P=P2)
+                out = orig(*a, **kw2)
+            else:
+                out = orig(P2, *a[1:], **kw)
             p = len(P)
             f = sys._getframe(1)
-            c.dykstra_hook(dict(mod=f.f_globals.get("__name__", "?"), line=f.f_lineno, p=p, tol=tol,
-                                max_iter=max_iter, calls=ncalls[0], sweeps=(ncalls[0] // p if p else 0),
-                                x0=x0, out=out, P=P))
+            c.dykstra_hook(dict(mod=f.f_globals.get("__name__", "?"), line=f.f_lineno, p=p, tol=ba.arguments.get("tol"),
+                                max_iter=ba.arguments.get("max_iter"), calls=ncalls[0], sweeps=(ncalls[0] // p if p else 0),
+                                x0=ba.arguments.get("x0"), out=out, P=P))
             return out
         return dykstra
     BINDINGS["dykstra"] = instrument_function("dykstra", mk, home=dfols.util)
